@@ -328,7 +328,35 @@ def direct_fitter(rec, spec, full, mk, p_exp, k, kw, cp_user, e0, case):
             return
         if not f.fp.get("success"):
             return
-        out[kk] = f.fp
+        out[kk] = copy.deepcopy(dict(f.fp))
+        if kk == 1.0 and k != 1.0:
+            # the same fitter is used again with another factor (its
+            # settings edited, modulus start value adapted)
+            try:
+                f.fp["gcf_k"] = k
+                pk2 = copy.deepcopy(p1)
+                pk2["E"].value = e0 * k ** (-p_exp)
+                f.fp["params_initial"] = pk2
+                f.fit()
+            except BaseException as e:  # noqa
+                rec.event("re-used fitter raised " + type(e).__name__)
+            else:
+                if f.fp.get("success") and k in out:
+                    rec.event("fitters used again with another factor")
+                    qa, qb = f.fp["params_fitted"], out[k]["params_fitted"]
+                    de2 = abs(qa["E"].value / qb["E"].value - 1)
+                    dc2 = abs(qa["contact_point"].value
+                              - qb["contact_point"].value) / truth["travel"]
+                    rec.check(de2 <= 1e-2 and dc2 <= 1e-2 and
+                              abs(f.fp["xmin"] - out[k]["xmin"])
+                              <= 1e-9 * truth["travel"],
+                              "direct-fitter/re-used-fitter-differs",
+                              "a fitter used with k=1 and then with k=%r "
+                              "gives E %.3e off, contact point %.3e of the "
+                              "travel off, xmin %r vs %r, compared with a "
+                              "new fitter for that k"
+                              % (k, de2, dc2, f.fp["xmin"], out[k]["xmin"]),
+                              case)
     # the fitter guesses the initial parameters itself when none are given
     # (curve not fitted before): the guess is in measured units for every k
     guess = {}
